@@ -278,8 +278,12 @@ impl Number {
         let num = self.0.abs();
 
         if is_compressed && num < 1.0 {
+            // the value may round up to `1.0000000000`: only a literal leading zero is dropped
+            let formatted = format!("{:.10}", num);
             buffer.push_str(
-                format!("{:.10}", num)[1..]
+                formatted
+                    .strip_prefix('0')
+                    .unwrap_or(&formatted)
                     .trim_end_matches('0')
                     .trim_end_matches('.'),
             );
